@@ -44,6 +44,18 @@ def run(tier):
     run_harness(chk, "numeric sequences", "pkg/routing", FILES + ["routing/c19_prophet.go"], "TestVerifC19Numeric",
                 env={"VERIF_REC": recf, "VERIF_RUNS": 8 if quick else 60, "VERIF_STEPS": 500 if quick else 3000}, timeout=1500)
     recs = read_ndjson(recf)
+    # peers appearing, ageing, incoming vectors at the same time on a large table, under the race detector
+    rc, out, crecs = go_test("pkg/routing", FILES + ["routing/c19_prophet.go"], "TestVerifC19Concurrent", env={"VERIF_MS": 1500 if quick else 8000},
+                             race=True, timeout=900, name="prophet concurrent")
+    racy = "WARNING: DATA RACE" in out or "fatal error: concurrent map" in out
+    if racy and "algorithm_prophet.go" in out:
+        i = max(out.find("WARNING: DATA RACE"), out.find("fatal error: concurrent map"))
+        chk.violation("prophet/concurrent-access", "the PRoPHET tables are read and written at the same time while peers appear, values age and vectors arrive "
+                      "(the Go runtime ends the process on such an access): " + " | ".join(out[i:i + 900].splitlines()[:14]), {"output": out[i:i + 4000]})
+    elif not any(r.get("k") == "done" for r in crecs) or (rc != 0 and not racy):
+        raise InfraError("concurrent PRoPHET harness did not complete (rc=%s)\n%s" % (rc, out[-1500:]))
+    else:
+        chk.cov["impl_runs"].append({"harness": "prophet concurrent (race detector)", **{r["name"]: r["n"] for r in crecs if r.get("k") == "stat"}})
     n, bad, results = check_records("Prophet", "", recs, name="prophetcheck")
     for r in results:
         chk.add_tlc("Prophet.tla records", r)
